@@ -21,27 +21,24 @@ mod c03 {
         (key[off] as u64) | ((key[off + 1] as u64) << 8) | ((key[off + 2] as u64) << 16) | ((key[off + 3] as u64) << 24)
             | ((key[off + 4] as u64) << 32) | ((key[off + 5] as u64) << 40) | ((key[off + 6] as u64) << 48) | ((key[off + 7] as u64) << 56)
     }
-    pub(super) fn spec_murmur3_token(key: &[u8]) -> i64 {
-        const C1: u64 = 0x87c37b91114253d5;
-        const C2: u64 = 0x4cf5ad432745937f;
-        let length = key.len();
-        let nblocks = length >> 4;
-        let (mut h1, mut h2) = (0u64, 0u64);
-        let mut i = 0;
-        while i < nblocks {
-            let mut k1 = getblock(key, i * 16);
-            let mut k2 = getblock(key, i * 16 + 8);
-            k1 = k1.wrapping_mul(C1); k1 = rotl(k1, 31); k1 = k1.wrapping_mul(C2); h1 ^= k1;
-            h1 = rotl(h1, 27); h1 = h1.wrapping_add(h2); h1 = h1.wrapping_mul(5).wrapping_add(0x52dce729);
-            k2 = k2.wrapping_mul(C2); k2 = rotl(k2, 33); k2 = k2.wrapping_mul(C1); h2 ^= k2;
-            h2 = rotl(h2, 31); h2 = h2.wrapping_add(h1); h2 = h2.wrapping_mul(5).wrapping_add(0x38495ab5);
-            i += 1;
-        }
-        let off = nblocks * 16;
-        let rem = length & 15;
+    const C1: u64 = 0x87c37b91114253d5;
+    const C2: u64 = 0x4cf5ad432745937f;
+    /// body of the block loop of hash3_x64_128: mixes one 16-byte block (k1, k2) into (h1, h2)
+    /// (= `spec_mix` of verus/c03_murmur3_stream.vrs)
+    fn ref_mix(mut h1: u64, mut h2: u64, mut k1: u64, mut k2: u64) -> (u64, u64) {
+        k1 = k1.wrapping_mul(C1); k1 = rotl(k1, 31); k1 = k1.wrapping_mul(C2); h1 ^= k1;
+        h1 = rotl(h1, 27); h1 = h1.wrapping_add(h2); h1 = h1.wrapping_mul(5).wrapping_add(0x52dce729);
+        k2 = k2.wrapping_mul(C2); k2 = rotl(k2, 33); k2 = k2.wrapping_mul(C1); h2 ^= k2;
+        h2 = rotl(h2, 31); h2 = h2.wrapping_add(h1); h2 = h2.wrapping_mul(5).wrapping_add(0x38495ab5);
+        (h1, h2)
+    }
+    /// everything after the block loop: the `switch (length & 15)` over the tail bytes, the length, fmix, and
+    /// Murmur3Partitioner.normalize (= `spec_finish` of the Verus unit). `tail` = the bytes after the last whole block.
+    fn ref_finish(mut h1: u64, mut h2: u64, tail: &[u8], length: u64) -> i64 {
+        let rem = tail.len();
         let (mut k1, mut k2) = (0u64, 0u64);
         // Java: ((long) key[offset + j]) << (8 * (j - 8)) — a signed byte, sign-extended to 64 bits
-        let sb = |j: usize| -> u64 { (key[off + j] as i8) as i64 as u64 };
+        let sb = |j: usize| -> u64 { (tail[j] as i8) as i64 as u64 };
         if rem >= 15 { k2 ^= sb(14) << 48; }
         if rem >= 14 { k2 ^= sb(13) << 40; }
         if rem >= 13 { k2 ^= sb(12) << 32; }
@@ -63,12 +60,86 @@ mod c03 {
             k1 ^= sb(0);
             k1 = k1.wrapping_mul(C1); k1 = rotl(k1, 31); k1 = k1.wrapping_mul(C2); h1 ^= k1;
         }
-        h1 ^= length as u64; h2 ^= length as u64;
+        h1 ^= length; h2 ^= length;
         h1 = h1.wrapping_add(h2); h2 = h2.wrapping_add(h1);
         h1 = fmix(h1); h2 = fmix(h2);
         h1 = h1.wrapping_add(h2);
         let t = h1 as i64;
         if t == i64::MIN { i64::MAX } else { t }
+    }
+    /// the whole reference: block loop (`spec_token` of the Verus unit is this fold), then the finalisation
+    pub(super) fn spec_murmur3_token(key: &[u8]) -> i64 {
+        let length = key.len();
+        let nblocks = length >> 4;
+        let (mut h1, mut h2) = (0u64, 0u64);
+        let mut i = 0;
+        while i < nblocks {
+            let k1 = getblock(key, i * 16);
+            let k2 = getblock(key, i * 16 + 8);
+            (h1, h2) = ref_mix(h1, h2, k1, k2);
+            i += 1;
+        }
+        ref_finish(h1, h2, &key[nblocks * 16..], length as u64)
+    }
+
+    // ------------------------------------------------------------------ the three fixed-size pieces the Verus unit assumes
+    // (verus/c03_murmur3_stream.vrs proves, for all lengths and chunkings, that `write`/`finish` compute the fold of
+    //  these pieces; here each piece of the REAL code is compared with the reference over its full domain)
+    /// one block: every (h1, h2, k1, k2); nothing else of the hasher changes
+    #[kani::proof]
+    #[kani::solver(cvc5)]
+    #[kani::stub(std::rt::thread_cleanup, noop)]
+    fn c03_block_mix() {
+        let (h1, h2, k1, k2): (i64, i64, i64, i64) = (kani::any(), kani::any(), kani::any(), kani::any());
+        let total_len: usize = kani::any();
+        let buf: [u8; 16] = kani::any();
+        let mut h = Murmur3PartitionerHasher { total_len, buf, h1: Wrapping(h1), h2: Wrapping(h2) };
+        h.hash_16_bytes(Wrapping(k1), Wrapping(k2));
+        let (r1, r2) = ref_mix(h1 as u64, h2 as u64, k1 as u64, k2 as u64);
+        assert!(h.h1.0 as u64 == r1 && h.h2.0 as u64 == r2, "block mix == reference");
+        assert!(h.total_len == total_len && h.buf == buf, "nothing else changes");
+    }
+    /// little-endian fetch: every 20 bytes; exactly 16 consumed
+    #[kani::proof]
+    #[kani::unwind(22)]
+    #[kani::stub(std::rt::thread_cleanup, noop)]
+    fn c03_fetch_le() {
+        let raw: [u8; 20] = kani::any();
+        let mut s = &raw[..];
+        let (k1, k2) = Murmur3PartitionerHasher::fetch_16_bytes_from_buf(&mut s);
+        assert!(k1.0 as u64 == getblock(&raw, 0) && k2.0 as u64 == getblock(&raw, 8), "two little-endian longs");
+        assert!(s.len() == 4 && s[0] == raw[16] && s[3] == raw[19], "exactly 16 bytes consumed");
+    }
+    /// finalisation for tail length N: every (h1, h2), every buffer content; total length N, N + 16 * (2^36 + 5) and N + 2^63.
+    /// (A symbolic total length keeps `total_len % 16`, hence the tail loops' bounds, symbolic: cvc5 then gave no answer in
+    ///  15 min. The length enters `finish` only through that residue and one xor.)
+    fn finish_tail<const N: usize>() {
+        let (h1, h2): (i64, i64) = (kani::any(), kani::any());
+        let buf: [u8; 16] = kani::any();
+        // (two straight-line calls: iterating over an array of lengths crashes CBMC's SMT back end)
+        let h = Murmur3PartitionerHasher { total_len: N, buf, h1: Wrapping(h1), h2: Wrapping(h2) };
+        assert!(h.finish().value() == ref_finish(h1 as u64, h2 as u64, &buf[..N], N as u64), "finish == reference finalisation");
+        let long = N + 16 * ((1usize << 36) + 5);
+        let h = Murmur3PartitionerHasher { total_len: long, buf, h1: Wrapping(h1), h2: Wrapping(h2) };
+        assert!(h.finish().value() == ref_finish(h1 as u64, h2 as u64, &buf[..N], long as u64), "finish == reference finalisation (long key)");
+        let huge = N + (1usize << 63); // the length cast to i64 is negative
+        let h = Murmur3PartitionerHasher { total_len: huge, buf, h1: Wrapping(h1), h2: Wrapping(h2) };
+        assert!(h.finish().value() == ref_finish(h1 as u64, h2 as u64, &buf[..N], huge as u64), "finish == reference finalisation (length >= 2^63)");
+    }
+    macro_rules! finish_tails {
+        ($($name:ident = $n:literal;)*) => {$(
+            #[kani::proof]
+            #[kani::unwind(18)]
+            #[kani::solver(cvc5)]
+            #[kani::stub(std::rt::thread_cleanup, noop)]
+            fn $name() { finish_tail::<$n>(); }
+        )*};
+    }
+    finish_tails! {
+        c03_finish_tail_00 = 0; c03_finish_tail_01 = 1; c03_finish_tail_02 = 2; c03_finish_tail_03 = 3;
+        c03_finish_tail_04 = 4; c03_finish_tail_05 = 5; c03_finish_tail_06 = 6; c03_finish_tail_07 = 7;
+        c03_finish_tail_08 = 8; c03_finish_tail_09 = 9; c03_finish_tail_10 = 10; c03_finish_tail_11 = 11;
+        c03_finish_tail_12 = 12; c03_finish_tail_13 = 13; c03_finish_tail_14 = 14; c03_finish_tail_15 = 15;
     }
 
     // ------------------------------------------------------------------ obligations
